@@ -304,7 +304,8 @@ impl Prop for Sem {
                 .iter()
                 .filter_map(|c| Some((c["func"].as_u64()? as u32, c["args"].as_array()?.iter().filter_map(|a| a.as_i64().map(|v| Val::I32(v as i32))).collect())))
                 .collect();
-            return Some(self.evaluate(&bytes, plan, calls, w["component_twice"].as_bool().unwrap_or(false), false));
+            let pre = lower::pre_from_json(&w["pre"]);
+            return Some(self.evaluate(&bytes, plan, calls, w["component_twice"].as_bool().unwrap_or(false), &pre, false));
         }
         match (w["seed"].as_u64(), w["idx"].as_u64()) {
             (Some(s), Some(i)) => Some(self.run_case(s, i, false)),
@@ -315,7 +316,21 @@ impl Prop for Sem {
         let mut rng = Rng::for_case(seed, self.id, idx);
         match gen_case(self.id, &mut rng) {
             // 1 case in 8: the module sits in a component that is encoded twice; the module of the second encoding is judged
-            Ok((bytes, plan, calls)) => self.evaluate(&bytes, plan, calls, idx % 8 == 7, want_sample),
+            Ok((bytes, plan, calls)) => {
+                // edits of the import side of the function index space before the plan is applied (module path only): the
+                // never-called second import is deleted in half of the programs that have one; 1 case in 6 adds an import
+                let mut pre = vec![];
+                if idx % 8 != 7 {
+                    let nimp = sym::decode(&bytes).map(|r| r.n_imp_funcs).unwrap_or(1);
+                    if nimp == 2 && rng.bool() {
+                        pre.push(lower::PreEdit::DeleteImportFunc(1));
+                    }
+                    if rng.chance(1, 6) {
+                        pre.push(lower::PreEdit::AddImportFunc(0));
+                    }
+                }
+                self.evaluate(&bytes, plan, calls, idx % 8 == 7, &pre, want_sample)
+            }
             Err(e) => {
                 let mut out = CaseOut::default();
                 out.inconclusive = Some(e);
@@ -492,6 +507,26 @@ pub fn gen_case(id: &str, rng: &mut Rng) -> Result<(Vec<u8>, Vec<Inj>, Vec<(u32,
             }
         }
     }
+    // neutral block alternates: a `block; <tick>; end` construct is replaced by a copy of the tick (1 in 2 such constructs).
+    // Nothing else is planned on or inside the replaced construct; function-level probes stay (also when the construct is
+    // the first instruction of the function).
+    for (k, func) in raw.funcs.iter().enumerate() {
+        let fid = raw.n_imp_funcs + k as u32;
+        let ops = &func.ops;
+        let pat = ["Block", "GlobalGet", "I64Const", "I64Add", "GlobalSet", "End"];
+        let mut i = 0;
+        while i + pat.len() <= ops.len() {
+            if (0..pat.len()).all(|j| ops[i + j].name == pat[j]) {
+                if rng.bool() {
+                    plan.retain(|x| !(x.func == fid && x.at >= i && x.at < i + pat.len() && !matches!(x.mode, Mode::FuncEntry | Mode::FuncExit)));
+                    push(&mut plan, fid, i, Mode::BlockAlt, Probe::TickCopy, rng);
+                }
+                i += pat.len();
+            } else {
+                i += 1;
+            }
+        }
+    }
     // function-level modes last (they are sticky on iterators)
     plan.sort_by_key(|i| matches!(i.mode, Mode::FuncEntry | Mode::FuncExit));
     // C17: after function-level probes were issued through an iterator, a FunctionModifier obtained for the same function starts
@@ -501,7 +536,12 @@ pub fn gen_case(id: &str, rng: &mut Rng) -> Result<(Vec<u8>, Vec<Inj>, Vec<(u32,
         for i in plan.iter().filter(|i| matches!(i.mode, Mode::FuncEntry | Mode::FuncExit) && i.path == Path::Iter) {
             if rng.chance(1, 4) && !extra.iter().any(|e: &Inj| e.func == i.func) {
                 let n = raw.funcs[(i.func - raw.n_imp_funcs) as usize].ops.len();
-                extra.push(Inj { func: i.func, at: rng.below(n), mode: Mode::Before, path: Path::Modifier, uid, n_ops: 1, leading_drop: false, probe: Probe::Host });
+                let at = rng.below(n);
+                // (not on or inside a construct that a neutral block alternate replaces)
+                if plan.iter().any(|x| x.probe == Probe::TickCopy && x.func == i.func && at >= x.at && at < x.at + 6) {
+                    continue;
+                }
+                extra.push(Inj { func: i.func, at, mode: Mode::Before, path: Path::Modifier, uid, n_ops: 1, leading_drop: false, probe: Probe::Host });
                 uid += 1;
             }
         }
@@ -514,23 +554,37 @@ pub fn gen_case(id: &str, rng: &mut Rng) -> Result<(Vec<u8>, Vec<Inj>, Vec<(u32,
     let mut calls = vec![];
     for (k, (np, _)) in prog.sigs.iter().enumerate() {
         for _ in 0..rng.range(2, 4) {
-            calls.push((k as u32 + 1, args_for(rng, *np)));
+            calls.push((k as u32 + prog.nimp, args_for(rng, *np)));
         }
     }
     Ok((prog.bytes, plan, calls))
 }
 
 impl Sem {
-    fn evaluate(&self, base: &[u8], plan: Vec<Inj>, calls: Vec<(u32, Vec<Val>)>, component_twice: bool, want_sample: bool) -> CaseOut {
+    fn evaluate(&self, base: &[u8], plan: Vec<Inj>, calls: Vec<(u32, Vec<Val>)>, component_twice: bool, pre: &[lower::PreEdit], want_sample: bool) -> CaseOut {
         let mut out = CaseOut::default();
         let apply = |b: &[u8], p: &[Inj]| {
             if component_twice {
                 lower::apply_component_n(b, p, &mut Rng::new(7, 7), 2)
             } else {
-                lower::apply_module(b, p)
+                lower::apply_module_pre(b, pre, p, 1).map(|(s, mut e, l)| (s, e.remove(0), l))
             }
         };
         out.ob(if component_twice { "path:component-encoded-twice" } else { "path:module" });
+        // local functions of the instrumented module are shifted by the pre-edits
+        let mut shift: i64 = 0;
+        for e in pre {
+            match e {
+                lower::PreEdit::DeleteImportFunc(_) => {
+                    shift -= 1;
+                    out.ob("pre-edit:delete-import-func");
+                }
+                lower::PreEdit::AddImportFunc(_) => {
+                    shift += 1;
+                    out.ob("pre-edit:add-import-func");
+                }
+            }
+        }
         let raw = match sym::decode(base) {
             Ok(r) => r,
             Err(e) => {
@@ -542,7 +596,7 @@ impl Sem {
         out.fp = fnv_mix(fnv(base), fnv(format!("{:?}{:?}", plan, calls).as_bytes()));
         let plan_json: Vec<String> = plan.iter().map(|i| format!("{:?}", i)).collect();
         let witness = || {
-            json!({"base_hex": base.iter().map(|b| format!("{:02x}", b)).collect::<String>(), "plan": lower::plan_to_json(&plan), "component_twice": component_twice,
+            json!({"base_hex": base.iter().map(|b| format!("{:02x}", b)).collect::<String>(), "plan": lower::plan_to_json(&plan), "component_twice": component_twice, "pre": lower::pre_to_json(pre),
                    "calls": calls.iter().map(|(f, a)| json!({"func": f, "args": a.iter().map(|v| match v { Val::I32(x) => *x as i64, Val::I64(x) => *x, _ => 0 }).collect::<Vec<_>>()})).collect::<Vec<_>>()})
         };
         let base_wat = || crate::props::c01::text_of(base);
@@ -649,7 +703,7 @@ impl Sem {
         let mut saw_call = false;
         for (func, args) in &calls {
             let r0 = run(&m0, *func, args, true);
-            let r1 = run(&m1, *func, args, false);
+            let r1 = run(&m1, (*func as i64 + shift) as u32, args, false);
             match (&r0.outcome, &r1.outcome) {
                 (Outcome::OutOfFuel, _) | (_, Outcome::OutOfFuel) => {
                     out.ob("call-out-of-fuel(inconclusive)");
